@@ -6,6 +6,10 @@
 //verif:replace@C17d math/rand.New = verifRandNew
 //verif:replace@C17d math/rand.NewSource = verifRandSource
 //verif:replace@C17d (*math/rand.Rand).Intn = verifIntn
+//verif:replace@C16d os.Stat = verifNoFile
+//verif:replace@C16d math/rand.New = verifRandNew
+//verif:replace@C16d math/rand.NewSource = verifRandSource
+//verif:replace@C16d (*math/rand.Rand).Intn = verifIntn
 //verif:replace@C18d golang.org/x/crypto/ssh.Dial = verifDial
 //verif:replace@C18d github.com/mimecast/dtail/internal/ssh.KeyFile = verifKeyFile
 //verif:replace@C18d github.com/mimecast/dtail/internal/ssh.Agent = verifAgent
